@@ -202,6 +202,9 @@ def eval_val(v, row):
     return v.e
 
 
+DICT_ATTRIBUTES = {"votes"}  # attributes that hold a plain dict by the class's contract (CVR.votes)
+
+
 def lift(f, *vals):
     """Apply f to the leaves, distributing over if-then-else."""
     for i, v in enumerate(vals):
@@ -350,6 +353,8 @@ class Tx:
             return c_or(c_and(a.c, self._cmp(op, a.a, b)), c_and(c_not(a.c), self._cmp(op, a.b, b)))
         if isinstance(b, I):
             return c_or(c_and(b.c, self._cmp(op, a, b.a)), c_and(c_not(b.c), self._cmp(op, a, b.b)))
+        if isinstance(b, T) and not b.items and op in (ast.In, ast.NotIn) and not isinstance(a, (T, Raise)):
+            return op is ast.NotIn  # nothing is a member of the empty tuple / list
         if isinstance(a, (T, Raise)) or isinstance(b, (T, Raise)):
             raise Unsupported("comparison of tuple/raise")
         k = _CMP[op]
@@ -448,6 +453,8 @@ class Tx:
             if isinstance(b, T):
                 if isinstance(i, E) and i.e.is_Integer:
                     return b.items[int(i.e)]
+                if not b.items:
+                    return Raise("IndexError")  # nothing can be taken out of the empty tuple (a guarded branch prunes this)
                 raise Unsupported("tuple index")
             if isinstance(i, T):
                 i = E(S("(" + ",".join(repr(x) for x in i.items) + ")"))
@@ -599,6 +606,13 @@ class Tx:
             return lift(lambda x: E(sp.Abs(x.e)), args[0])
         if name == "str" and len(args) == 1:
             return lift(lambda x: E(sp.Function("str")(x.e)), args[0])
+        if short == "get" and isinstance(n.func, ast.Attribute) and len(n.args) in (1, 2) and not n.keywords \
+                and isinstance(n.func.value, ast.Attribute) and n.func.value.attr in DICT_ATTRIBUTES:
+            # d.get(k, default) on an attribute that is a plain dict by the class's contract: d[k] if k in d else default
+            c = self.cond(ast.Compare(left=n.args[0], ops=[ast.In()], comparators=[n.func.value]))
+            there = self.expr(ast.Subscript(value=n.func.value, slice=n.args[0], ctx=ast.Load()))
+            absent = args[1] if len(args) == 2 else E(S("None"))
+            return I(c, there, absent) if c not in (True, False) else (there if c else absent)
         if name in self.inline:
             return self._inline(self.inline[name], n, args, kws, name)
         if AUTO_INLINE is not None and self.depth < 4:
